@@ -1171,3 +1171,321 @@ func c20NamesUnquoted(c *Ctx) {
 		c.R.Unk(rule, name+": result", c.P.Pos(fn.Pos()), "no assignment to the result found")
 	}
 }
+
+// ---- C20.declared-names-quoted: names reach SQLite's parser as identifiers, whatever they contain -------
+
+func init() {
+	register(&Rule{Name: "C20.declared-names-quoted", Min: 1, Run: c20DeclaredNamesQuoted,
+		Doc: "every column name pasted into the CREATE TABLE text that is declared to SQLite passes through a quoting function: a name with a space or a reserved word is otherwise re-parsed by SQLite as something else"})
+	byProp["C20"] = append(byProp["C20"], "C20.declared-names-quoted")
+	explain["C20"] += " declared-names-quoted: s3db parses the columns specification itself and then declares the table to SQLite as text, so SQLite parses the names a second time; a parsed name concatenated into that text as it is makes '\"my col\" primary key' declare a column 'my' of type 'col', and '\"order\"' fail to declare. In convertSchema (and helpers split out of it) no string concatenation has a Column.Name as a direct operand; a name is concatenated only as the result of a same-package function whose result contains a double-quote constant."
+}
+
+func c20DeclaredNamesQuoted(c *Ctx) {
+	const rule = "C20.declared-names-quoted"
+	fn := mustFunc(c, "", "", "convertSchema")
+	if fn == nil {
+		return
+	}
+	name := core.FuncName(fn)
+	sc := c.Scope(fn)
+	pk := c.P.Pkg("")
+	isColName := func(v ssa.Value) bool {
+		v = an.Unwrap(v)
+		switch x := v.(type) {
+		case *ssa.Field:
+			fv := an.FieldVar(x.X.Type(), x.Field)
+			return fv != nil && fv.Name() == "Name" && strings.Contains(x.X.Type().String(), "Column")
+		case *ssa.UnOp:
+			fv := an.FieldOfLoad(x)
+			if fv == nil || fv.Name() != "Name" {
+				return false
+			}
+			if fa, ok := x.X.(*ssa.FieldAddr); ok {
+				return strings.Contains(fa.X.Type().String(), "Column")
+			}
+		}
+		return false
+	}
+	quotes := func(h *ssa.Function) bool {
+		if h == nil || h.Pkg == nil || h.Pkg.Pkg != pk.Types || len(h.Blocks) == 0 {
+			return false
+		}
+		ok := false
+		for _, b := range h.Blocks {
+			ret, isRet := b.Instrs[len(b.Instrs)-1].(*ssa.Return)
+			if !isRet || len(ret.Results) == 0 {
+				continue
+			}
+			an.DependsOn(ret.Results[0], func(v ssa.Value) bool {
+				if k, isK := v.(*ssa.Const); isK && k.Value != nil && k.Value.Kind() == constant.String && strings.Contains(constant.StringVal(k.Value), `"`) {
+					ok = true
+				}
+				return false
+			})
+		}
+		return ok
+	}
+	n, bad := 0, 0
+	for _, f := range sc.Funcs {
+		for _, b := range f.Blocks {
+			for _, in := range b.Instrs {
+				bo, ok := in.(*ssa.BinOp)
+				if !ok || bo.Op != token.ADD {
+					continue
+				}
+				if bt, ok := bo.Type().Underlying().(*types.Basic); !ok || bt.Info()&types.IsString == 0 {
+					continue
+				}
+				for _, op := range []ssa.Value{bo.X, bo.Y} {
+					if isColName(op) {
+						n++
+						bad++
+						c.R.Bad(rule, fmt.Sprintf("%s: column name #%d is quoted for the declaration", name, n), c.P.Pos(bo.Pos()),
+							"a parsed column name is concatenated into the CREATE TABLE text as it is: SQLite re-parses it — '\"my col\" primary key, b' declares a column 'my' of type 'col', '\"order\"' / '\"select\"' fail to declare although they are valid quoted names")
+						continue
+					}
+					if cl, ok := an.Unwrap(op).(*ssa.Call); ok {
+						takesName := false
+						for _, a := range cl.Call.Args {
+							if isColName(a) {
+								takesName = true
+							}
+						}
+						if takesName {
+							n++
+							c.R.Cond(quotes(cl.Call.StaticCallee()), rule, fmt.Sprintf("%s: column name #%d is quoted for the declaration", name, n), c.P.Pos(bo.Pos()),
+								"the name goes through "+calleeLabel(cl)+", whose result carries double quotes", "the function the name passes through does not quote it")
+						}
+					}
+				}
+			}
+		}
+	}
+	if n == 0 {
+		c.R.Unk(rule, name+": column names in the declaration", c.P.Pos(fn.Pos()), "no concatenation of a column name found")
+	}
+}
+
+// ---- C20.type-per-column: a column's type is its own ---------------------------------------------------
+
+func init() {
+	register(&Rule{Name: "C20.type-per-column", Min: 1, Run: c20TypePerColumn,
+		Doc: "the scratch variable the column-type action reads is reset when a new column starts: an optional element's action always runs, so a stale capture would give an untyped column the previous column's type"})
+	byProp["C20"] = append(byProp["C20"], "C20.type-per-column")
+	byProp["C06"] = append(byProp["C06"], "C20.type-per-column")
+	explain["C20"] += " type-per-column: in the parser combinators of sql.Schema the action attached to Optional(ColumnType(&v)) runs whether or not a type was present; the captured variable it copies into DefaultType must therefore be cleared by the action that starts a new column (or by the copying action itself), otherwise 'a text primary key, b' declares b as TEXT and 'where b = ''1''' matches the integer 1 through TEXT affinity."
+}
+
+func c20TypePerColumn(c *Ctx) {
+	const rule = "C20.type-per-column"
+	fn := mustFunc(c, "sql", "", "Schema")
+	if fn == nil {
+		return
+	}
+	name := core.FuncName(fn)
+	var all []*ssa.Function
+	var collect func(f *ssa.Function)
+	collect = func(f *ssa.Function) {
+		all = append(all, f)
+		for _, a := range f.AnonFuncs {
+			collect(a)
+		}
+	}
+	collect(fn)
+	// resolve a closure's free variable to the allocation it was bound to
+	var resolve func(v ssa.Value, d int) ssa.Value
+	resolve = func(v ssa.Value, d int) ssa.Value {
+		fv, ok := v.(*ssa.FreeVar)
+		if !ok || d > 6 {
+			return v
+		}
+		f := fv.Parent()
+		p := f.Parent()
+		if p == nil {
+			return v
+		}
+		for _, b := range p.Blocks {
+			for _, in := range b.Instrs {
+				mc, ok := in.(*ssa.MakeClosure)
+				if !ok || mc.Fn != ssa.Value(f) {
+					continue
+				}
+				for i, x := range f.FreeVars {
+					if x == fv && i < len(mc.Bindings) {
+						return resolve(mc.Bindings[i], d+1)
+					}
+				}
+			}
+		}
+		return v
+	}
+	n := 0
+	for _, f := range all {
+		for _, b := range f.Blocks {
+			for _, in := range b.Instrs {
+				st, ok := in.(*ssa.Store)
+				if !ok {
+					continue
+				}
+				fa, ok := st.Addr.(*ssa.FieldAddr)
+				if !ok {
+					continue
+				}
+				fv := an.FieldVar(fa.X.Type(), fa.Field)
+				if fv == nil || fv.Name() != "DefaultType" {
+					continue
+				}
+				// the captured scratch variable the value is read from
+				var scratch ssa.Value
+				an.DependsOn(st.Val, func(v ssa.Value) bool {
+					if ld, ok := v.(*ssa.UnOp); ok && ld.Op == token.MUL {
+						if x, ok := ld.X.(*ssa.FreeVar); ok {
+							if bt, ok := x.Type().(*types.Pointer); ok {
+								if bb, ok := bt.Elem().Underlying().(*types.Basic); ok && bb.Info()&types.IsString != 0 {
+									scratch = resolve(x, 0)
+								}
+							}
+						}
+					}
+					return false
+				})
+				if scratch == nil {
+					continue
+				}
+				n++
+				// who clears it: a store of "" into the same allocation, in the closure that starts a column
+				// (appends to Columns) or in this closure
+				cleared := ""
+				for _, g := range all {
+					startsColumn := g == f
+					for _, gb := range g.Blocks {
+						for _, gi := range gb.Instrs {
+							if s2, ok := gi.(*ssa.Store); ok {
+								if fa2, ok := s2.Addr.(*ssa.FieldAddr); ok {
+									if v2 := an.FieldVar(fa2.X.Type(), fa2.Field); v2 != nil && v2.Name() == "Columns" {
+										startsColumn = true
+									}
+								}
+							}
+						}
+					}
+					if !startsColumn {
+						continue
+					}
+					for _, gb := range g.Blocks {
+						for _, gi := range gb.Instrs {
+							s2, ok := gi.(*ssa.Store)
+							if !ok || resolve(s2.Addr, 0) != scratch {
+								continue
+							}
+							if k, ok := s2.Val.(*ssa.Const); ok && k.Value != nil && k.Value.Kind() == constant.String && constant.StringVal(k.Value) == "" {
+								cleared = core.FuncName(g)
+							}
+						}
+					}
+				}
+				c.R.Cond(cleared != "", rule, name+": column type scratch is cleared per column", c.P.Pos(st.Pos()),
+					"cleared in "+cleared,
+					"the variable the column-type action copies into DefaultType is never cleared when a column starts; the action of an Optional element runs even when nothing matched, so a column without a type inherits the previous column's: 'a text primary key, b' declares b TEXT, and 'where b = ''1''' then matches the integer 1")
+			}
+		}
+	}
+	if n == 0 {
+		c.R.Unk(rule, name+": column type scratch is cleared per column", c.P.Pos(fn.Pos()), "no action that copies a captured string into DefaultType found")
+	}
+}
+
+// ---- C20.list-grammar: a separator is part of a list only between two elements --------------------------
+
+func init() {
+	register(&Rule{Name: "C20.list-grammar", Min: 1, Run: c20ListGrammar,
+		Doc: "typestate of parse.Delimited: the combinator never returns success with a consumed delimiter as the last thing it committed to the parser"})
+	byProp["C20"] = append(byProp["C20"], "C20.list-grammar")
+	explain["C20"] += " list-grammar: the columns specification and the key list are parsed with Delimited(term, delimiter); a delimiter that was consumed although no term follows it makes 'a primary key, b,' a valid specification. The combinator's closure is walked with the state 'what was last committed to the caller's parser' (a term or a delimiter; calls on a copy commit only when the copy is assigned back): no successful return is reachable with a delimiter committed last."
+}
+
+type listState struct{ e, c int } // last consumption committed to the parser / made on a copy: 0 none, 1 term, 2 delimiter
+
+func (l listState) Key() string { return fmt.Sprintf("%d/%d", l.e, l.c) }
+
+func c20ListGrammar(c *Ctx) {
+	const rule = "C20.list-grammar"
+	outer := mustFunc(c, "sql/parse", "", "Delimited")
+	if outer == nil {
+		return
+	}
+	if len(outer.AnonFuncs) != 1 || len(outer.Params) != 2 {
+		c.R.Unk(rule, "parse.Delimited: shape", c.P.Pos(outer.Pos()), "expected Delimited(term, delimiter) to return one closure")
+		return
+	}
+	f := outer.AnonFuncs[0]
+	e := f.Params[0]
+	kindOf := func(v ssa.Value) int {
+		if ld, ok := v.(*ssa.UnOp); ok && ld.Op == token.MUL {
+			v = ld.X // captured by reference
+		}
+		fv, ok := v.(*ssa.FreeVar)
+		if !ok {
+			return 0
+		}
+		switch fv.Name() {
+		case outer.Params[0].Name():
+			return 1
+		case outer.Params[1].Name():
+			return 2
+		}
+		return 0
+	}
+	h := an.THooks{}
+	h.Branch = func(iff *ssa.If, side bool, st0 an.TState) an.TState {
+		st := st0.(listState)
+		cond, neg := an.StripNot(iff.Cond)
+		cl, ok := cond.(*ssa.Call)
+		if !ok {
+			return st
+		}
+		k := kindOf(cl.Call.Value)
+		if k == 0 || len(cl.Call.Args) != 1 {
+			return st
+		}
+		if side != neg { // the parser function matched and consumed
+			if cl.Call.Args[0] == ssa.Value(e) {
+				st.e = k
+			} else {
+				st.c = k
+			}
+		}
+		return st
+	}
+	h.Instr = func(in ssa.Instruction, st0 an.TState) an.TState {
+		st := st0.(listState)
+		switch x := in.(type) {
+		case *ssa.Call:
+			if calleeLabel(x) == "Copy" && len(x.Call.Args) > 0 && x.Call.Args[0] == ssa.Value(e) {
+				st.c = st.e // a fresh copy starts from what is committed
+			}
+		case *ssa.Store:
+			if x.Addr == ssa.Value(e) { // *e = *copy
+				st.e = st.c
+			}
+		}
+		return st
+	}
+	exits := an.WalkTypestate(f, listState{}, h, nil)
+	good := len(exits) > 0
+	why := ""
+	for _, ex := range exits {
+		if len(ex.Ret.Results) != 1 {
+			continue
+		}
+		if cb, isC := constBool(ex.Ret.Results[0]); isC && !cb {
+			continue
+		}
+		if ex.St.(listState).e == 2 {
+			good = false
+			why = "Delimited can return success at " + c.P.Pos(ex.Ret.Pos()) + " after committing a delimiter that no term follows: a trailing separator is accepted ('columns=''a primary key, b,''' creates the table), although the specification is malformed"
+		}
+	}
+	c.R.Cond(good, rule, "parse.Delimited: no trailing delimiter is consumed", c.P.Pos(f.Pos()), "every successful return has a term as the last committed consumption", why)
+}
